@@ -343,7 +343,19 @@ def c_case(case, out):
 # ------------------------------------------------------------------------------------------------
 # generators
 # ------------------------------------------------------------------------------------------------
-NAMES = ["a", "mytran", "x1", "dc_1", "Analysis0", "Analysis1", "Analysis", "tr2", "an_7", "Sweep"]
+def _auto_prefix():
+    """the prefix of the names of unnamed analyses in the tree under test (regenerated table entry
+    Hdl21Gen.C17Names.auto_name_prefix): user names that LOOK generated are spelled with it"""
+    import os, re
+    try:
+        m = re.search(r'Definition auto_name_prefix : string := "([ -!#-~]*)"\.', open(os.path.join(core.COQDIR, "generated", "C17Names.v")).read())
+        return m.group(1) if m else "Analysis"
+    except OSError:
+        return "Analysis"
+
+
+AUTO = _auto_prefix()
+NAMES = ["a", "mytran", "x1", "dc_1", AUTO + "0", AUTO + "1", AUTO, "tr2", "an_7", "Sweep"]
 STRS = ["x", "vdd", "out_p", "trig_targ_something", ".option temp=27", "v(out) / v(in)", "a b  c", "tt", "fast", "1+2"]
 PATHS = ["/home/models", "a/b.sp", "models.lib", "/x/y/z.scs", "lib"]
 SIGS = ["out", "inp", "n1", "vdd", "x_0"]
@@ -605,7 +617,7 @@ def gen_items(r, style, n, depth, lit=0.0):
             if "_" not in keys and r.random() < 0.1:
                 key = "_"
             else:
-                key = r.choice([f"k{i}", f"an{i}", f"my_{i}", f"Analysis{i}"])
+                key = r.choice([f"k{i}", f"an{i}", f"my_{i}", f"{AUTO}{i}"])
             keys.add(key)
         items.append([key, a])
     return items
@@ -712,7 +724,7 @@ def corpus():
     # naming counter across nesting, user names that look generated, empty names
     c.append(one("proc", [["k0", ["op", None]], ["k1", ["sweep", [["tran", N1, None, None], ["monte", [["op", None], ["op", "in"]], 3, None]],
                                                           ["s", "x"], ["lin", N1, N1, N1], None]],
-                          ["k2", ["op", ""]], ["k3", ["custom", "c", "Analysis0"]]]))
+                          ["k2", ["op", ""]], ["k3", ["custom", "c", AUTO + "0"]]]))
     # the readme's simulation, three ways
     readme = [["x", ["param", "x", ["pre", 5, 0, 0, "int"]]],
               ["mydc", ["dc", ["pref", 0], ["pts", [N1]], "mydc"]],
@@ -1183,7 +1195,7 @@ def run(run, tier, seed, replay=None):
     an_out = core.run_worker("c17", dict(kind="autoname", jobs=ks))["results"]
     bad = core.coq_eval_cases("C17", "autoname", IMPORTS, "N * string", [f"({k}%N, {cstr(s)})" for k, s in zip(ks, an_out)],
                               "run_cases chk_autoname", chunk=400)
-    run.stream("spec-autoname-vs-cpython", len(ks), len(set(ks)), rule="auto_name n against f\"Analysis{n}\"; all distinct n")
+    run.stream("spec-autoname-vs-cpython", len(ks), len(set(ks)), rule="auto_name n against f\"<live prefix>{n}\" (the prefix the live exporter gives unnamed analyses); all distinct n")
     for i, code in bad[:1]:
         run.violation("C17:spec-validation:autoname", f"auto_name disagrees with CPython on {ks[i]}",
                       dict(kind="spec-validation", stream="autoname", case=ks[i]), found_input=False)
